@@ -5,8 +5,15 @@
   Tied: every API boundary event of the scenario (scope.enter/spawn/fend/fpanic, sjoin, child.begin/end/panic,
   frame.drop, spawn, join, cancel) and every hooked operation of `join.rs` (Join.state, Join.to_wake) and of the
   result / panic slots (`coroutine_impl.rs`: packet, panic; `scoped.rs`: their_packet), with operands, results,
-  success flags and memory orderings. Not in this layer's trace: the park/unpark internals of the Blocker
-  (C02), the cancel bit itself (`cancel.rs`; the canceller's API call stands for it).
+  success flags and memory orderings. Not in this layer's trace: the park/unpark internals of the Blocker (C02).
+  Of `cancel.rs` (in the filter of the families since wp-scope4) the read-modify-write operations of `Cancel::state`
+  are tied: `fetch_or(1)` of the canceller and the `fetch_add(2)` / `fetch_sub(2)` of the disable bracket of
+  `JoinState::join`, as steps of `Model/ScopeCancel.lean` that runs next to the Scope model (`RSt.br`): a scoped join of
+  a coroutine starts with the `fetch_add`, and once `handle.join()` has delivered the next event of that coroutine must
+  be the `fetch_sub` (`RSt.owe`), with the previous value of the word as the model has it. Brackets of other code
+  (`Park::drop` ...) on the same word are accepted where the model allows them. Every load of the word by its coroutine
+  must read the value the model has (cancel bit + 2 x open brackets). `Cancel::co` is skipped (the cancel bit as the Scope
+  model sees it is still the canceller's API call).
 
   The variant of `JoinState::join` (pinned / fixed by pending_fixes/F5.patch) is a configuration bit of the model
   (`Sh.fixed`). The machine starts undecided and commits at the first scoped join: the operation after the first
@@ -15,6 +22,7 @@
 -/
 import MayVerif.Core.Trace
 import MayVerif.Model.Scope
+import MayVerif.Model.ScopeCancel
 namespace MayVerif.Scope
 open MayVerif
 
@@ -61,6 +69,9 @@ structure RSt where
   locked : Bool := false
   names : List (String × Nat) := []       -- unnamed coroutines (`c#k`, children of `join!`) ↦ model actor
   lastJoin : Nat := 0
+  br : ScopeCancel.St := ScopeCancel.init -- the cancel words (`Model/ScopeCancel.lean`)
+  owe : List (Nat × Bool) := []           -- bracket operations that are due, per coroutine in order: true = `disable_cancel`, false = `enable_cancel`
+  lastCancel : List (Nat × Nat) := []     -- canceller ↦ target of its last `cancel` call
 
 def jst (c : Tid) : Option (String × Nat) := some ("jst" ++ toString c, 0)
 def jtw (c : Tid) : Option (String × Nat) := some ("jtw" ++ toString c, 0)
@@ -142,8 +153,82 @@ def envOfCall (ev : Event) : Option Env :=
   | "cancel", some c, _ => some (.cancel c)
   | _, _, _ => none
 
+def cstI (c : Tid) : Option (String × Nat) := some ("cst" ++ toString c, 0)
+
+/-- the coroutine whose join the actor is in -/
+def joinOf : Pc → Option (Tid × K)
+  | .jd c k | .jx c k _ | .w2 c k | .w3 c k _ | .w4 c k _ | .w5 c k | .r1 c k | .r2 c k => some (c, k)
+  | _ => none
+
+def oweOf (r : RSt) (t : Nat) : List Bool := (r.owe.filter (·.1 == t)).map (·.2)
+
+def dropFirst (t : Nat) : List (Nat × Bool) → List (Nat × Bool)
+  | [] => []
+  | x :: xs => if x.1 == t then xs else x :: dropFirst t xs
+
+/-- the bracket model follows a step of the Scope model: `handle.join()` of a scoped join has delivered (`Env.res`, and
+    `enable_cancel` is due), a new scoped join has started (`disable_cancel` is due). Threads have no cancel data, the
+    pinned code has no bracket. -/
+def bsync (r : RSt) (s' : St) (t : Nat) : RSt :=
+  let s := r.st
+  let r1 := { r with st := s' }
+  if !isCo t || (r.locked && !s.sh.fixed) then r1 else
+  let r2 : RSt := match joinOf (s.pcs t) with
+    | some (c, k) =>
+      if k != .top && (s.sh.jres c).isNone && r.br.pcs t == .b1 then
+        match s'.sh.jres c with
+        | some res =>
+          (match ScopeCancel.step r1.br t (.res (res != .ok)) with
+           | some b' => { r1 with br := b', owe := r1.owe ++ [(t, false)] }
+           | none => r1)
+        | none => r1
+      else r1
+    | none => r1
+  match s'.pcs t with
+  | .jd c k => if k != .top && !s.sh.joined c then { r2 with owe := r2.owe ++ [(t, true)] } else r2
+  | _ => r2
+
+def stepB (r : RSt) (t : Nat) (e : Env) : Option RSt :=
+  match step r.st t e with
+  | some s' => some (bsync r s' t)
+  | none => none
+
+def brLabel (op : String) (c : Tid) (arg : Int) (cst : Nat) : Label :=
+  { obj := "cancel.state", inst := cstI c, op := op, a1 := .num arg, res := .num cst, ord := "Release" }
+
+def commitFixed (r : RSt) : RSt :=
+  if r.locked then r else { r with locked := true, st := { r.st with sh := { r.st.sh with fixed := true } } }
+
+/-- what the bracket model offers for actor `t`: the operation of `JoinState::join` that is due, or a bracket of other
+    code (`foreign`: only for an event that is such an operation) -/
+def bracketCands (r : RSt) (t : Nat) (ev : Event) (pre : String) : List (Label × RSt × String) :=
+  let cst := r.br.sh.cst t
+  let runB (es : List ScopeCancel.Env) : Option ScopeCancel.St :=
+    es.foldl (fun o e => o.bind (fun b => ScopeCancel.step b t e)) (some r.br)
+  let foreign : List (Label × RSt × String) :=
+    if ev.obj == "cancel.state" && ev.op == "fetch_add" then
+      (match runB [.fdis] with
+       | some b' => [(brLabel "fetch_add" t 2 cst, { r with br := b' }, pre ++ "other/disable")]
+       | none => [])
+    else if ev.obj == "cancel.state" && ev.op == "fetch_sub" then
+      (match runB [.fen] with
+       | some b' => [(brLabel "fetch_sub" t 2 cst, { r with br := b' }, pre ++ "other/enable")]
+       | none => [])
+    else []
+  match oweOf r t with
+  | true :: _ =>
+    (match runB [.call (r.st.sh.unw t != .no), .go] with
+     | some b' => [(brLabel "fetch_add" t 2 cst, commitFixed { r with br := b', owe := dropFirst t r.owe }, pre ++ "join/disable")]
+     | none => [])
+  | false :: _ =>
+    (match runB [.go, .go] with
+     | some b' => [(brLabel "fetch_sub" t 2 cst, { r with br := b', owe := dropFirst t r.owe },
+                    pre ++ "join/enable" ++ (match r.br.pcs t with | .b2 true => "+reraise" | _ => ""))]
+     | none => []) ++ foreign
+  | [] => foreign
+
 /-- candidates of actor `t` in state `s` without looking through silent steps -/
-def obsCands (r : RSt) (t : Nat) (ev : Event) (pre : String) : List (Label × RSt × String) :=
+def obsCands0 (r : RSt) (t : Nat) (ev : Event) (pre : String) : List (Label × RSt × String) :=
   let s := r.st
   let pc := s.pcs t
   if ev.kind == "ret" then
@@ -167,20 +252,40 @@ def obsCands (r : RSt) (t : Nat) (ev : Event) (pre : String) : List (Label × RS
       -- API calls are made from user code only (the step function ignores the choice at the other program points)
       let apiPc : Bool := match pc with | .idle | .body | .inF | .left => true | _ => false
       if !idOk || !apiPc then [] else
-      match step s t e with
-      | some s' =>
+      match stepB r t e with
+      | some r' =>
         let lj := match e with | .join c => c | _ => r.lastJoin
-        [({ kind := "call", op := ev.op }, { r with st := s', lastJoin := lj }, pre ++ pcName pc ++ "/" ++ ev.op)]
+        let lc := match e with | .cancel c => (t, c) :: r.lastCancel.filter (·.1 != t) | _ => r.lastCancel
+        [({ kind := "call", op := ev.op }, { r' with lastJoin := lj, lastCancel := lc }, pre ++ pcName pc ++ "/" ++ ev.op)]
       | none => []
+  else if ev.obj == "cancel.state" && ev.op == "fetch_or" then
+    -- `Cancel::cancel` of the coroutine named in the caller's `cancel` call
+    match r.lastCancel.find? (·.1 == t) with
+    | some (_, c) =>
+      (match ScopeCancel.step r.br t (.cancel c) with
+       | some b' => [(brLabel "fetch_or" c 1 (r.br.sh.cst c), { r with br := b' }, pre ++ "cancel/bit")]
+       | none => [])
+    | none => []
+  else if ev.obj == "cancel.state" then bracketCands r t ev pre
   else
     match pc with
     | .idle | .body | .inF | .left | .fin | .w4 .. => []
     | _ =>
-      match step s t .go with
-      | some s' =>
+      match stepB r t .go with
+      | some r' =>
         let lock := match pc with | .jx _ k _ => k != .top | _ => false
-        [(label s.sh t pc, { r with st := s', locked := r.locked || lock }, pre ++ transName s.sh t pc)]
+        [(label s.sh t pc, { r' with locked := r.locked || lock }, pre ++ transName s.sh t pc)]
       | none => []
+
+/-- while a bracket operation of `JoinState::join` is due, it is the only thing the coroutine can do next. (Undecided
+    variant: a coroutine that starts a scoped join without `disable_cancel` runs the pinned code.) -/
+def obsCands (r : RSt) (t : Nat) (ev : Event) (pre : String) : List (Label × RSt × String) :=
+  let pinned := r.locked && !r.st.sh.fixed
+  if pinned || (oweOf r t).isEmpty || ev.obj == "cancel.state" then obsCands0 r t ev pre
+  else if r.locked then
+    -- (never matches `ev`, which is no operation of the cancel word: the divergence report names what was due)
+    [(brLabel (match oweOf r t with | true :: _ => "fetch_add" | _ => "fetch_sub") t 2 (r.br.sh.cst t), r, pre ++ "join/due")]
+  else obsCands0 { r with owe := [], locked := true } t ev pre
 
 /-- silent steps an actor may have taken before its next observable step -/
 def silentEnvs : Pc → List Env
@@ -191,8 +296,8 @@ def silentEnvs : Pc → List Env
 def candsV (r : RSt) (t : Nat) (ev : Event) : List (Label × RSt × String) :=
   obsCands r t ev "" ++
   (silentEnvs (r.st.pcs t)).flatMap fun e =>
-    match step r.st t e with
-    | some s' => obsCands { r with st := s' } t ev (pcName (r.st.pcs t) ++ (match e with | .cwake => "/cancelwake;" | .chit => "/cancelhit;" | _ => "/woken;"))
+    match stepB r t e with
+    | some r' => obsCands r' t ev (pcName (r.st.pcs t) ++ (match e with | .cwake => "/cancelwake;" | .chit => "/cancelhit;" | _ => "/woken;"))
     | none => []
 
 def flipV (r : RSt) : RSt := { r with st := { r.st with sh := { r.st.sh with fixed := !r.st.sh.fixed } } }
@@ -218,8 +323,35 @@ def actorOf (r : RSt) (a : String) : Option Nat :=
       | none => some r.st.n           -- not bound yet: only `child.begin` can bind it
     else none
 
+/-- a read of the cancel word by coroutine `t` (`cst` = the word as the model has it, `none` = no such coroutine in the
+    scenario). The kernel tail of a yield (`k:` actors) is concurrent with the coroutine's continuation: its last read can
+    be logged after the coroutine - and, under load, its whole scenario - has ended (like the trigger's `to_wake.take()`
+    in `cands0`), under a name that now belongs to somebody else. So a kernel-tail read is not bound to an instance, and
+    where it cannot be a read of `t`'s word it is accepted as a stray one if it reads 0 (not cancelled, no bracket).
+    At most one of the candidates matches an event (no duplicate alternatives). -/
+def loadCands {σ : Type} (st : σ) (t : Nat) (cst : Option Nat) (ev : Event) : List (Label × σ × String) :=
+  let own (v : Nat) (i : Option (String × Nat)) : List (Label × σ × String) :=
+    [({ obj := "cancel.state", inst := i, op := "load", res := .num v, ord := "Acquire" }, st,
+      "cancel/load" ++ (if v % 2 == 1 then "+bit" else "") ++ (if v ≥ 2 then "+disabled" else ""))]
+  let stray : List (Label × σ × String) :=
+    [({ obj := "cancel.state", op := "load", res := .num 0, ord := "Acquire" }, st, "stray/kernel-tail-load")]
+  if ev.actor.startsWith "k:" then
+    match cst with
+    | some 0 => own 0 none
+    | some v => own v none ++ stray
+    | none => stray
+  else
+    match cst with
+    | some v => own v (cstI t)
+    | none => []
+
 def cands0 (r : RSt) (t : Nat) (ev : Event) : List (Label × RSt × String) :=
-  -- an unnamed coroutine (`c#k`) introduces itself with its first event; the name is derived from the address of its
+  if ev.obj == "cancel.state" && ev.op == "load" then
+    -- `is_canceled` / `is_disabled` / `check_cancel` of the coroutine itself: it reads its word as the model has it
+    -- (cancel bit + 2 x open brackets); no step of either model. (The pinned code is not value-checked.)
+    if r.locked && !r.st.sh.fixed then [({ obj := "cancel.state", op := "load" }, r, "cancel/load?")]
+    else loadCands r t (if t < r.st.n && isCo t then some (r.br.sh.cst t) else none) ev
+  else  -- an unnamed coroutine (`c#k`) introduces itself with its first event; the name is derived from the address of its
   -- handle, so a later coroutine can carry the name of one that is gone
   let unnamed := (coreName ev.actor).startsWith "c#"
   if unnamed && ev.kind == "call" && ev.op == "child.begin" then
@@ -244,9 +376,28 @@ def cands0 (r : RSt) (t : Nat) (ev : Event) : List (Label × RSt × String) :=
     let decisive : Bool := match r.st.pcs t with | .jx _ k _ => k != .top | _ => false
     candsV r t ev ++ (if decisive then candsV (flipV r) t ev else [])
 
+def compactB (n : Nat) (b : ScopeCancel.St) : ScopeCancel.St :=
+  let sh := b.sh
+  let a_pcs := mk n b.pcs
+  let a_cst := mk n sh.cst
+  let a_tp := mk n sh.tp
+  let a_bit := mk n sh.bit
+  let a_jo := mk n sh.jo
+  let a_fo := mk n sh.fo
+  let a_ent := mk n sh.ent
+  let a_exit := mk n sh.exit
+  { b with pcs := tabA a_pcs b.pcs,
+           sh := { sh with cst := tabA a_cst sh.cst, tp := tabA a_tp sh.tp, bit := tabA a_bit sh.bit, jo := tabA a_jo sh.jo,
+                           fo := tabA a_fo sh.fo, ent := tabA a_ent sh.ent, exit := tabA a_exit sh.exit } }
+
 def cands (r : RSt) (t : Nat) (ev : Event) : List (Label × RSt × String) :=
   (cands0 r t ev).map fun (l, r', nm) =>
-    (l, (if r'.age ≥ 24 then { r' with st := compactSt r'.st, age := 0 } else { r' with age := r'.age + 1 }), nm)
+    (l, (if r'.age ≥ 24 then { r' with st := compactSt r'.st, br := compactB r'.st.n r'.br, age := 0 } else { r' with age := r'.age + 1 }), nm)
+
+/-- not steps of this layer: bookkeeping notes, and of `cancel.rs` everything but the operations of `Cancel::state` -/
+def skipEv (e : Event) : Bool :=
+  e.kind == "note" ||
+  (e.obj.startsWith "cancel." && !(e.obj == "cancel.state" && (e.op == "load" || e.op == "fetch_add" || e.op == "fetch_sub" || e.op == "fetch_or")))
 
 def machine : Machine where
   St := RSt
@@ -261,13 +412,117 @@ def machine : Machine where
     match (List.range s.n).find? (fun o => s.pcs o == .left && (s.sh.fixed || !s.sh.canc o) && (s.sh.kids o).any (fun c => !s.sh.fin c)) with
     | some o => some s!"actor {o} has left its scope while one of its coroutines is still running"
     | none => none
-  where_ := fun r t => if t < r.st.n then pcName (r.st.pcs t) ++ (if r.st.sh.fixed then " (fixed)" else " (pinned)") else "unbound coroutine"
+  where_ := fun r t => if t < r.st.n then pcName (r.st.pcs t) ++ (if r.st.sh.fixed then " (fixed)" else " (pinned)") ++
+      (match oweOf r t with | true :: _ => " disable_cancel due" | false :: _ => " enable_cancel due" | [] => "")
+    else "unbound coroutine"
   atEnd := fun r =>
     -- a finished run: every coroutine that was spawned is gone, the threads are idle
     -- (`e4`: the trigger's `to_wake.take()` may still be on its way when the scenario is over)
     match (List.range r.st.n).find? (fun t => r.st.sh.spawned t && r.st.pcs t != .fin && r.st.pcs t != .e4 || (t < 2 && r.st.pcs t != .idle)) with
     | some t => some s!"actor {t} is at {pcName (r.st.pcs t)} at the end of a finished run"
+    | none =>
+      if r.locked && !r.st.sh.fixed then none else
+      match (List.range r.st.n).find? (fun t => !(oweOf r t).isEmpty || r.br.pcs t != .out) with
+      | some t => some s!"actor {t} has not closed the disable_cancel bracket of a scoped join at the end of a finished run"
+      | none => none
+  skip := skipEv
+
+/-! ### family `scopecatch`: owners that catch the re-raised panic of a scoped coroutine, go on and are cancelled
+
+  Only the cancel words are modelled here (`Model/ScopeCancel.lean`): a coroutine that survives a panic
+  (`catch_unwind`) is outside the Scope model. Tied: every operation of `Cancel::state` - the loads too, each must read
+  the word as the model has it (bit + 2 x open brackets) -, the result slots taken inside `handle.join()` (they decide
+  `Env.res`), and the program order: no API event of an owner while its bracket is open. -/
+
+structure CSt where
+  n : Nat
+  br : ScopeCancel.St := ScopeCancel.init
+  lastCancel : List (Nat × Nat) := []
+  age : Nat := 0
+
+def cactor (c : CSt) (a : String) : Option Nat :=
+  if a == "main" then some 0
+  else
+    let core := coreName a
+    if core.startsWith "c:c" then (match (core.drop 3).toString.toNat? with | some i => some i | none => some c.n)
+    else some c.n        -- coroutines that are not part of the scenario proper (the fresh ones at its end)
+
+def cskip (e : Event) : Bool :=
+  e.kind == "note" || e.obj.startsWith "join." || e.obj.startsWith "scoped." || e.obj == "cancel.co"
+
+def ccands (c : CSt) (t : Nat) (ev : Event) : List (Label × CSt × String) :=
+  let self (nm : String) : List (Label × CSt × String) := [({ kind := ev.kind, obj := ev.obj, op := ev.op }, c, nm)]
+  if t ≥ c.n then self "other" else
+  let pc := c.br.pcs t
+  let cst := c.br.sh.cst t
+  let runB (es : List ScopeCancel.Env) (nm : String) (l : Label) : List (Label × CSt × String) :=
+    match es.foldl (fun o e => o.bind (fun b => ScopeCancel.step b t e)) (some c.br) with
+    | some b' => [(l, { c with br := b' }, nm)]
+    | none => []
+  let due : List (Label × CSt × String) := match pc with
+    | .b2 _ => [(brLabel "fetch_sub" t 2 cst, c, "join/due")]
+    | _ => []
+  if ev.kind == "call" || ev.kind == "ret" then
+    if pc != .out then due
+    else
+      let c' := match ev.kind, ev.op, numOf ev.a1 with
+        | "call", "cancel", some x => { c with lastCancel := (t, x) :: c.lastCancel.filter (·.1 != t) }
+        | _, _, _ => c
+      [({ kind := ev.kind, op := ev.op }, c', ev.kind ++ "." ++ ev.op)]
+  else if ev.obj == "cancel.state" then
+    if ev.op == "load" then loadCands c t (some cst) ev
+    else if ev.op == "fetch_or" then
+      match c.lastCancel.find? (·.1 == t) with
+      | some (_, x) => runB [.cancel x] "cancel/bit" (brLabel "fetch_or" x 1 (c.br.sh.cst x))
+      | none => []
+    else if ev.op == "fetch_add" then
+      (if pc == .out then runB [.call false, .go] "join/disable" (brLabel "fetch_add" t 2 cst) else []) ++
+      runB [.fdis] "other/disable" (brLabel "fetch_add" t 2 cst)
+    else if ev.op == "fetch_sub" then
+      runB [.go, .go] ("join/enable" ++ (match pc with | .b2 true => "+reraise" | _ => "")) (brLabel "fetch_sub" t 2 cst) ++
+      runB [.fen] "other/enable" (brLabel "fetch_sub" t 2 cst)
+    else []
+  else if ev.obj == "coroutine_impl.packet" || ev.obj == "coroutine_impl.panic" then
+    if ev.op != "opt.take" || t == 0 then self "slot" else
+    match pc with
+    | .b1 =>
+      let some_ : Bool := match ev.res with | .num r => r != -1 | _ => true
+      if ev.obj == "coroutine_impl.packet" then
+        (if some_ then runB [.res false] "join/value" { obj := ev.obj, op := "opt.take" } else self "join/no-value")
+      else runB [.res true] (if some_ then "join/payload" else "join/cancelled") { obj := ev.obj, op := "opt.take" }
+    | _ => due          -- a coroutine takes a result only inside `handle.join()`
+  else []
+
+def bpcName : ScopeCancel.Pc → String
+  | .out => "outside JoinState::join"
+  | .b0 => "b0"
+  | .b1 => "b1 (waiting, cancel disabled)"
+  | .b2 _ => "b2 (handle.join() returned: enable_cancel due)"
+  | .b3 _ => "b3"
+
+def catchMachine : Machine where
+  St := CSt
+  init := fun h => match hnat h "actors" with
+    | some n => .ok { n := n }
+    | none => .error "scopecatch scenario without actors="
+  actor := cactor
+  cands := fun c t ev => (ccands c t ev).map fun (l, c', nm) =>
+    (l, (if c'.age ≥ 24 then { c' with br := compactB c'.n c'.br, age := 0 } else { c' with age := c'.age + 1 }), nm)
+  inv := fun c =>
+    -- executable form of `cancel_word_balanced` / `scoped_join_leaves_cancel_balanced`
+    match (List.range c.n).find? (fun t =>
+        c.br.sh.cst t != ScopeCancel.b2n (c.br.sh.bit t) + 2 * (c.br.sh.jo t + c.br.sh.fo t) ||
+        (match c.br.sh.exit t with | some (a, b, _) => a != b | none => false) ||
+        (c.br.pcs t == .out && c.br.sh.jo t != 0)) with
+    | some t => some s!"the cancel word of coroutine {t} is not balanced"
     | none => none
-  skip := fun e => e.kind == "note"
+  where_ := fun c t => if t < c.n then
+      bpcName (c.br.pcs t) ++ s!" cst={c.br.sh.cst t}"
+    else "-"
+  atEnd := fun c =>
+    match (List.range c.n).find? (fun t => c.br.pcs t != .out || c.br.sh.jo t != 0 || c.br.sh.fo t != 0) with
+    | some t => some s!"coroutine {t} ends with an open disable_cancel bracket"
+    | none => none
+  skip := cskip
 
 end MayVerif.Scope
